@@ -87,15 +87,19 @@ class BitFlow:
         """same, but the source is bit `bit` of the *integer* parameter pidx itself"""
         return self.analyse(fname, pidx, None, bit)
 
-    def analyse_value(self, fname, vid, bit):
-        """same, but the source is bit `bit` of the SSA value `vid` of the function itself"""
-        key = (fname, ("v", vid), None, bit)
+    def analyse_value(self, fname, vid, bit, cut_phis=False):
+        """same, but the source is bit `bit` of the SSA value `vid` of the function itself. cut_phis: loop-header phis do
+        not propagate (influence within one iteration only). The result carries the per-value masks under "masks"."""
+        key = (fname, ("v", vid), cut_phis, bit)
         if key not in self.memo:
             f = self.unit.fns[fname]
             run = _Run(self, f, 0 if f["params"] else -1, None, bit, 0)
             run.pidx = -1
             run.src_vid = vid
-            self.memo[key] = run.run()
+            run.cut_phis = cut_phis
+            r = run.run()
+            r["masks"] = dict(run.mask)
+            self.memo[key] = r
         return self.memo[key]
 
     def analyse(self, fname, pidx, byte, bit, depth=0):
@@ -119,6 +123,7 @@ class _Run:
         self.bf, self.f, self.pidx, self.byte, self.bit, self.depth = bf, f, pidx, byte, bit, depth
         self.insts = f["insts"]
         self.src_vid = None
+        self.cut_phis = False
         self.pname = f["params"][pidx]["name"] if 0 <= pidx < len(f["params"]) else ""
         self.mask = {}
         self.base = {}      # SSA id -> ("p", off) pointer into the source buffer | ("al", alloca id, off or None)
@@ -307,6 +312,8 @@ class _Run:
             new = m(vals[0]) | m(vals[1])
             if m(c):
                 new = full(ty)
+        elif op == "phi" and self.cut_phis and self.f["blocks"][ins["b"]].get("loophdr"):
+            new = 0
         elif op == "phi":
             for o, _b in ins["inc"]:
                 new |= m(o)
